@@ -140,3 +140,14 @@ package tcp
 //@   callpre Monitor).Stop @the-health-monitor-of-this-processor-is-stopped arg0 == p.hm
 //@   callpre Listener).Stop @the-listener-of-this-processor-is-stopped arg0 == p.ln
 //@   callpre Wait @stop-waits-for-the-serve-goroutine arg0 == p.wg
+
+// ---- C06: when the picked host leaves the host set, both ends of the established connection are closed
+// (the watcher spawned by HandleConn) -------------------------------------------------------------------------
+
+//@ func (*tcpProc).HandleConn$2
+//@   prop C06
+//@   assume deref(host) != nil && deref(cconn) != nil && deref(p) != nil
+//@   assume @before:net.(*Conn).Close deref(cconn).isClosed != nil
+//@   modifies all
+//@   callpre (net.Conn).Close @the-backend-side-is-closed-once-the-host-has-been-removed arg0 == deref(sconn) && waitedfor(deref(host).removeCh)
+//@   callpre net.(*Conn).Close @the-client-side-is-closed-once-the-host-has-been-removed arg0 == deref(cconn) && waitedfor(deref(host).removeCh)
